@@ -82,6 +82,9 @@ theorem plainRun_going (i : Inner) (code : Nat) (wr : Bool)
   simp only [h]
   cases wr <;> simp [finish, wireBody, wireLen]
 
+@[simp] theorem cleanup_absent (ret : Nat) (e : Bool) : cleanup ret e .absent = .absent := rfl
+@[simp] theorem cleanup_opened (ret : Nat) (e : Bool) : cleanup ret e .opened = .closed := rfl
+
 /-- Either the middleware leaves the response exactly as the plain chain produces it, or the
 client offered gzip, the response passed the filters, and exactly one gzip layer was added with
 the rewritten header. -/
@@ -113,11 +116,12 @@ theorem gzipRun_cases (blocks : List Block) (path ae : Bytes) (i : Inner) :
         by_cases hd : decision b i code = true
         · right
           refine ⟨trivial, b, code, wr, hd, hp, ?_⟩
-          simp only [hd, hdrAfter, if_true, finish, wireBody]
+          simp only [hd, hdrAfter, if_true, finish, wireBody, cleanup, streamBody]
+          simp
         · left
           rw [hp]
           have hd' : decision b i code = false := by simpa using hd
-          simp only [hd', hdrAfter, finish, wireBody, wireLen]
+          simp only [hd', hdrAfter, finish, wireBody, wireLen, cleanup]
           simp
   · left
     simp [hae]
